@@ -19,7 +19,8 @@ fn main() {
         std::process::exit(2);
     }
     // keep panics of the code under test quiet: they are caught and reported as contract failures
-    std::panic::set_hook(Box::new(|_| {}));
+    if std::env::var("RAC_SHOW_PANICS").is_err() { std::panic::set_hook(Box::new(|_| {})); }
+    else if std::env::var("RAC_SHOW_PANICS").as_deref() == Ok("brief") { std::panic::set_hook(Box::new(|i| { let m = i.to_string(); if !m.contains("capacity overflow") { eprintln!("PANIC: {m}"); } })); }
     let threads = arg(&args, "--threads", 16usize);
     let seed = arg(&args, "--seed", 0u64);
     let thorough = args.iter().any(|a| a == "--thorough");
